@@ -298,3 +298,5 @@ RF("C18", _SI, "        if diff:\n            return diff > self.divergenceToler
 M("C19", "C19.rewind", _IV, "        self.checkPreconditions(self._agent, *self._args, **self._kwargs)\n        self.checkInvariants(self._agent, *self._args, **self._kwargs)\n\n    def _isEnabledForAgent", "        import random as _r\n        _st = _r.getstate()\n        self.checkPreconditions(self._agent, *self._args, **self._kwargs)\n        self.checkInvariants(self._agent, *self._args, **self._kwargs)\n        _r.setstate(_st)\n\n    def _isEnabledForAgent", "c19-guards-rewind-rng")
 M("C19", "C19.enabled", _IV, "        try:\n            self._agent = agent  # in case `self` is used in a precondition\n            self._checkAllPreconditions()\n            return True", "        if getattr(self, '_wasEnabled', False):\n            return True\n        try:\n            self._agent = agent  # in case `self` is used in a precondition\n            self._checkAllPreconditions()\n            self._wasEnabled = True\n            return True", "c19-eligibility-cached")
 RF("C19", _IV, "                choice = Options(enabled)\n            return choice", "                return Options(enabled)\n            return choice", "c19-rf-return-options-directly")
+M("C20", "C20.adjacent", "src/scenic/formats/opendrive/xodr_parser.py", "            for section in lane.sections:\n                adj.extend(sec.lane for sec in section.adjacentLanes)", "            for section in lane.sections[:1]:\n                adj.extend(sec.lane for sec in section.adjacentLanes)", "c20-lane-adjacency-first-section")
+M("C20", "C20.cover", "src/scenic/formats/opendrive/xodr_parser.py", "            laneRegion=combine(lanes),", "            laneRegion=combine(lanes),\n            drivableRegion=PolygonalRegion(polygon=self.drivable_region),", "c20-drivable-includes-gaps")
